@@ -368,6 +368,17 @@ class C30(core.Check):
                                                  G.num(wd[3])))
             if case['last']:
                 ex('PSET (%s,%s),%d' % (G.num(case['last'][0]), G.num(case['last'][1]), case['bg']))
+            if case.get('noise'):
+                # random screen contents in colours below the drawing attribute (C31)
+                r3 = random.Random(case['noise'][0])
+                vr = info_rect = ([min(case['view'][0], case['view'][2]), min(case['view'][1], case['view'][3]),
+                                   max(case['view'][0], case['view'][2]), max(case['view'][1], case['view'][3])]
+                                  if case['view'] else [0, 0, w - 1, h - 1])
+                ox, oy = (0, 0) if (not case['view'] or case['view'][4]) else (vr[0], vr[1])
+                for _ in range(case['noise'][1]):
+                    ax, ay = r3.randint(vr[0], vr[2]), r3.randint(vr[1], vr[3])
+                    bx, by = r3.randint(vr[0], vr[2]), r3.randint(vr[1], vr[3])
+                    ex('LINE (%d,%d)-(%d,%d),%d' % (ax - ox, ay - oy, bx - ox, by - oy, r3.randrange(case['noise'][2])))
             s._impl.interpreter.error_num = 0
             info.update({'w': w, 'h': h, 'npages': npages, 'ap': ap, 'sel': sel, 'bpp': g._mode.bitsperpixel,
                          'view': G.view_of(g), 'nattr': g._num_attr})
